@@ -8,6 +8,8 @@
 import Oryx.Base.Text
 import Oryx.Model.WsHandshake
 import Oryx.Spec.Sha1
+import Oryx.Model.WsDeadline
+import Oryx.Gen.Websocket
 namespace Oracle.WsHs
 open Oryx Oryx.Model.WsHs
 
@@ -49,8 +51,24 @@ def clStr : ClientOut → String
   | .invalidCompression => "invalid"
   | .accept c sub => s!"accept {b01 c} {toHex sub}"
 
+/-- deadline histories: ops `d.<now>.<dl>.<id>` / `c.<now>.<dl>.<id>` separated by `,` (dl `n` = none) -/
+def parseDlOp (s : String) : Option Oryx.Model.WsDeadline.Op :=
+  match s.splitOn "." with
+  | [k, now, dl, id] => do
+    let now ← now.toNat?
+    let id ← id.toNat?
+    let dl ← if dl == "n" then some none else dl.toNat?.map some
+    if k == "d" then some (.data now dl id) else if k == "c" then some (.control now dl id) else none
+  | _ => none
+
 def handle (op : String) (args : List String) : Option String :=
   match op, args with
+  | "hs.deadline", [armed, ops] => do
+    let armed ← if armed == "n" then some none else armed.toNat?.map some
+    let ops ← if ops == "_" then some [] else (ops.splitOn ",").mapM parseDlOp
+    let r := Oryx.Model.WsDeadline.run Oryx.Gen.Websocket.writesArmOwnDeadline { armed := armed } ops
+    let s := Oryx.Model.WsDeadline.specRun {} ops
+    pure s!"{"".intercalate (r.2.map b01)} {" ".intercalate (r.1.wire.map toString)}|{"".intercalate (s.2.map b01)} {" ".intercalate (s.1.wire.map toString)}"
   | "hs.octet", [b] => do
     let n ← b.toNat?
     pure (toString (octetType (UInt8.ofNat n)))
